@@ -83,7 +83,7 @@ Definition lv_cw (k3 : kcp) : Z :=
 
 Definition lv_ph4 (k3 : kcp) (ft : Z) : list seg * list seg * Z * Z :=
   if ft =? FLUSH_FULL
-  then admit (snd_queue k3) (snd_buf k3) (conv k3) (snd_una k3) (snd_nxt k3) (lv_cw k3) 0
+  then admit_segs (snd_queue k3) (snd_buf k3) (conv k3) (snd_una k3) (snd_nxt k3) (lv_cw k3) 0
   else (snd_queue k3, snd_buf k3, snd_nxt k3, 0).
 
 Definition lv_k4 (k3 : kcp) (sq sb : list seg) (nxt : Z) : kcp :=
